@@ -255,6 +255,19 @@ pub fn protos_mutated(ctx: &Ctx) {
     judge_proto(ctx, proto);
 }
 
+/// (iv) all name sequences of length <= 4 over the nine coordinate / colour component names
+/// (validly typed), i.e. every combination of missing and repeated group members
+pub fn protos_groups(ctx: &Ctx) {
+    const NAMES: [&str; 9] = ["cartesianX", "cartesianY", "cartesianZ", "sphericalRange", "sphericalAzimuth", "sphericalElevation", "colorRed", "colorGreen", "colorBlue"];
+    let len = 1 + ctx.pick("len", 4);
+    let mut proto = Vec::new();
+    for _ in 0..len {
+        let n = ctx.pick("name", NAMES.len());
+        proto.push(rec(NAMES[n], if n < 6 { F32 } else { Ty::Int { min: 0, max: 255 } }));
+    }
+    judge_proto(ctx, proto);
+}
+
 // ------------------------------------------------------------------------------------------
 // values
 
